@@ -7,6 +7,8 @@
 #include <memory>
 #include <tbox/base/json.hpp>
 #include <tbox/main/module.h>
+#include <tbox/util/variables.h>
+#include <type_traits>
 
 using tbox::Json;
 using tbox::main::Module;
@@ -67,7 +69,15 @@ struct Probe : public Module {
     }
 };
 
+// stand-alone util::Variables objects (v<k>); m<id> addresses the vars() of a live module
+std::map<uint64_t, std::unique_ptr<tbox::util::Variables>> g_vars;
+
+// setParent() returns void before patches/C11-03 and bool after it
+template <class T> auto set_parent(T &v, T *p, int) -> typename std::enable_if<std::is_same<decltype(v.setParent(p)), bool>::value, bool>::type { return v.setParent(p); }
+template <class T> bool set_parent(T &v, T *p, long) { v.setParent(p); return true; }
+
 void reset_all() {
+    g_vars.clear();
     // delete the roots; children go with them (their destructors erase themselves from g_mods)
     for (;;) {
         Probe *root = nullptr;
@@ -168,12 +178,57 @@ bool to_id(const std::string &w, uint64_t &v) { return w.size() <= 4 && vh::to_u
 
 }  // namespace
 
+tbox::util::Variables *vtarget(const std::string &w, bool &standalone) {
+    uint64_t k;
+    if (w.size() < 2 || !vh::to_u64(w.substr(1), k)) return nullptr;
+    if (w[0] == 'v' && k < 16) { standalone = true; auto it = g_vars.find(k); return it == g_vars.end() ? nullptr : it->second.get(); }
+    if (w[0] == 'm' && w.size() <= 5 && k < 1000) { standalone = false; auto it = g_mods.find(k); return it == g_mods.end() ? nullptr : &it->second->vars(); }
+    return nullptr;
+}
+bool vname(const std::string &w) { if (w.empty() || w.size() > 3) return false; for (char c : w) if (c < 'a' || c > 'z') return false; return true; }
+
+// returns false for an ill-formed line
+bool vars_op(const std::vector<std::string> &w) {
+    using tbox::util::Variables;
+    const std::string &op = w[0];
+    bool ret = true, sa = false, sb = false, f = false; std::string val = "-"; int64_t iv = 0; uint64_t k = 0;
+    if (op == "vnew" && w.size() == 2 && vh::to_u64(w[1], k) && k < 16 && !g_vars.count(k)) {
+        g_vars[k].reset(new Variables);
+    } else if (op == "vpar" && w.size() == 3) {
+        Variables *a = vtarget(w[1], sa); if (!a || !sa) return false;
+        if (w[2] == "-") set_parent(*a, (Variables*)nullptr, 0);
+        else { Variables *b = vtarget(w[2], sb); if (!b || !sb) return false; ret = set_parent(*a, b, 0); }
+    } else if (op == "vdef" && w.size() == 4 && vname(w[2]) && vh::to_i64(w[3], iv)) {
+        Variables *a = vtarget(w[1], sa); if (!a) return false;
+        ret = a->define(w[2], Json(iv));
+    } else if (op == "vundef" && w.size() == 3 && vname(w[2])) {
+        Variables *a = vtarget(w[1], sa); if (!a) return false;
+        ret = a->undefine(w[2]);
+    } else if (op == "vhas" && w.size() == 4 && vname(w[2]) && to_bool(w[3], f)) {
+        Variables *a = vtarget(w[1], sa); if (!a) return false;
+        ret = a->has(w[2], f);
+    } else if (op == "vget" && w.size() == 4 && vname(w[2]) && to_bool(w[3], f)) {
+        Variables *a = vtarget(w[1], sa); if (!a) return false;
+        Json js; ret = a->get(w[2], js, f);
+        if (ret) val = js.is_number_integer() ? std::to_string(js.get<int64_t>()) : "?";
+    } else if (op == "vset" && w.size() == 5 && vname(w[2]) && vh::to_i64(w[3], iv) && to_bool(w[4], f)) {
+        Variables *a = vtarget(w[1], sa); if (!a) return false;
+        ret = a->set(w[2], Json(iv), f);
+    } else if ((op == "vcopy" || op == "vswap") && w.size() == 3) {
+        Variables *a = vtarget(w[1], sa), *b = vtarget(w[2], sb); if (!a || !b || !sa || !sb) return false;
+        if (op == "vcopy") *a = *b; else a->swap(*b);
+    } else return false;
+    std::cout << "P ret=" << (ret ? 1 : 0) << " val=" << val << "\n";
+    return true;
+}
+
 int main() {
     std::string line;
     while (std::getline(std::cin, line)) {
         auto w = vh::words(line);
         if (w.empty()) continue;
         if (w[0] == "case") { reset_all(); std::cout << line << "\n"; continue; }
+        if (w[0][0] == 'v') { if (!vars_op(w)) std::cout << "bad-op\n"; continue; }
         if (w.size() == 1 && w[0] == "quiet") { std::cout << "P quiet\n"; continue; }   // (the model drops its B lines)
         g_tr.clear();
         bool ok = false, ret = true, thrown = false;
@@ -200,6 +255,7 @@ int main() {
                 ok = true;
                 try {
                     if (op == "init") ret = do_call(p, 'i');
+                    else if (op == "fillinit") { Json js = Json::object(); p->fillDefaultConfig(js); ret = p->initialize(js); }
                     else if (op == "start") ret = do_call(p, 's');
                     else if (op == "stop") p->stop();
                     else if (op == "cleanup") p->cleanup();
